@@ -2055,6 +2055,8 @@ def check_failops(ctx, rep, rng, count):
                  sample=sample_once('I', 97, rep.evaluations, {'part': 'I', 'case': jc, 'regime': regime}))
         rep.dist['failops:' + regime] += 1
         rep.dist['failops-kind:' + case['kind']] += 1
+        if case['kind'] == 'linker':
+            rep.dist['failops-submodel-extra-names:' + (','.join(case['sub_extra']) or 'none')] += 1
         rep.dist['failops-name-pool:' + case['pool']] += 1
         for ak in case['alias_kinds'] or ['plain']:
             rep.dist['failops-alias-names:' + ak] += 1
@@ -2074,7 +2076,7 @@ def _run_parts(ctx, rep):
     """Workers 0-3: the parts (A)-(D), (E), (G), (H); the other workers: part (I).  With fewer than six workers:
     everything in a row in worker 0."""
     quick = ctx.tier == 'quick'
-    n_i = (2400 if quick else 45000) * ctx.scale
+    n_i = (5000 if quick else 90000) * ctx.scale
     try:
         if ctx.parts < len(LEGACY) + 2:
             if ctx.part == 0:
